@@ -12,49 +12,52 @@
    without a failing request succeeds.  Every work unit that was successfully
    created runs exactly once (Settle), and ABT_finalize releases everything.  *)
 EXTENDS Naturals, Integers
-CONSTANTS Effs,
-          KeptUL   \* user-pool units that outlive the follow-up workload (terminated, named, not yet freed)
+CONSTANTS Effs
 VARIABLES up,      \* the runtime is initialised
           obs,     \* observable state
           created, \* units successfully created and not yet run (ghost)
-          must     \* the next call of this kind must succeed ("retry succeeds")
-hvars == <<up, obs, created, must>>
+          must,    \* the next call of this kind must succeed ("retry succeeds")
+          keep     \* user-pool units of terminated, named work units that outlive the follow-up workload (ghost)
+hvars == <<up, obs, created, must, keep>>
 Zero == [nx |-> 1, s0 |-> 0, s1 |-> 0, s2 |-> 0, su |-> 0, ul |-> 0, ran |-> 0, kv |-> 0, k2 |-> 0, pk |-> 0, pre |-> 0, mx |-> 1, prim |-> 1]
-HInit == up = FALSE /\ obs = Zero /\ created = 0 /\ must = FALSE
+HInit == up = FALSE /\ obs = Zero /\ created = 0 /\ must = FALSE /\ keep = 0
 
 Queued(o) == o.s0 + o.s1 + o.s2 + o.su
 Effect(eff, o) ==
     CASE eff = "p1"  -> [o EXCEPT !.s1 = @ + 1]
       [] eff = "p0"  -> [o EXCEPT !.s0 = @ + 1]
       [] eff = "up"  -> [o EXCEPT !.su = @ + 1, !.ul = @ + 1]   \* a unit of the user-defined pool is created
-      [] eff = "upr" -> [o EXCEPT !.su = @ + 1]                  \* revive: the unit still exists
+      [] eff = "upk" -> [o EXCEPT !.su = @ + 1, !.ul = @ + 1]   \* revive of a terminated unit into the user-defined pool
+      [] eff = "upr" -> [o EXCEPT !.su = @ + 1]                  \* revive in the same user pool: the unit still exists
+      [] eff = "p1f" -> [o EXCEPT !.s1 = @ + 1, !.ul = @ - 1]   \* revive from the user pool into a built-in one: the unit is freed
       [] eff = "ran" -> [o EXCEPT !.ran = @ + 1]                 \* create_to: the new ULT ran before the call returned
       [] eff = "nx"  -> [o EXCEPT !.nx = @ + 1]
       [] eff = "k2"  -> [o EXCEPT !.k2 = 33]
       [] eff = "pk"  -> [o EXCEPT !.pk = 55]
       [] OTHER       -> o
-NewUnits(eff) == IF eff \in {"p1", "p0", "up", "upr"} THEN 1 ELSE 0
+NewUnits(eff) == IF eff \in {"p1", "p0", "up", "upk", "upr", "p1f"} THEN 1 ELSE 0
+KeepDelta(eff) == IF eff = "upk" THEN 1 ELSE IF eff = "p1f" THEN -1 ELSE 0
 
-InitOk == ~up /\ up' = TRUE /\ must' = FALSE /\ UNCHANGED <<obs, created>>
-InitFail == ~up /\ ~must /\ must' = TRUE /\ UNCHANGED <<up, obs, created>>
+InitOk == ~up /\ up' = TRUE /\ must' = FALSE /\ UNCHANGED <<obs, created, keep>>
+InitFail == ~up /\ ~must /\ must' = TRUE /\ UNCHANGED <<up, obs, created, keep>>
 \* set-up of pre-existing objects by calls that are not under fault
-Setup(o) == up /\ obs' = o /\ created' = Queued(o) /\ UNCHANGED <<up, must>>
-CallOk(eff) == up /\ obs' = Effect(eff, obs) /\ created' = created + NewUnits(eff) /\ must' = FALSE /\ UNCHANGED up
-CallFail(eff) == up /\ ~must /\ must' = TRUE /\ UNCHANGED <<up, obs, created>>
+Setup(o) == up /\ obs' = o /\ created' = Queued(o) /\ keep' = 1 /\ UNCHANGED <<up, must>>
+CallOk(eff) == up /\ obs' = Effect(eff, obs) /\ created' = created + NewUnits(eff) /\ keep' = keep + KeepDelta(eff) /\ must' = FALSE /\ UNCHANGED up
+CallFail(eff) == up /\ ~must /\ must' = TRUE /\ UNCHANGED <<up, obs, created, keep>>
 \* the follow-up workload runs every queued unit exactly once
 Settle == up /\ ~must
           /\ obs' = [obs EXCEPT !.s0 = 0, !.s1 = 0, !.s2 = 0, !.su = 0, !.ran = @ + created, !.pre = 0, !.pk = 0,
-                                !.ul = KeptUL]
-          /\ created' = 0 /\ UNCHANGED <<up, must>>
+                                !.ul = keep]
+          /\ created' = 0 /\ UNCHANGED <<up, must, keep>>
 \* releasing the object a successful call created (only a new stream is visible)
-Undo(eff) == up /\ ~must /\ obs' = (IF eff = "nx" THEN [obs EXCEPT !.nx = @ - 1] ELSE obs) /\ UNCHANGED <<up, created, must>>
-Finalize == up /\ ~must /\ created = 0 /\ up' = FALSE /\ obs' = Zero /\ UNCHANGED <<created, must>>
+Undo(eff) == up /\ ~must /\ obs' = (IF eff = "nx" THEN [obs EXCEPT !.nx = @ - 1] ELSE obs) /\ UNCHANGED <<up, created, must, keep>>
+Finalize == up /\ ~must /\ created = 0 /\ up' = FALSE /\ obs' = Zero /\ keep' = 0 /\ UNCHANGED <<created, must>>
 
 HNext == InitOk \/ InitFail \/ Settle \/ Finalize \/ \E e \in Effs : CallOk(e) \/ CallFail(e) \/ (obs.nx > 1 /\ Undo(e))
 HSpec == HInit /\ [][HNext]_hvars
 \* no unit is lost or duplicated, whatever fails
 Conservation == created = Queued(obs)
 \* a failing step changes nothing observable
-FailAtomic == [][must' /\ ~must => obs' = obs /\ created' = created /\ up' = up]_hvars
+FailAtomic == [][must' /\ ~must => obs' = obs /\ created' = created /\ up' = up /\ keep' = keep]_hvars
 \* two failures in a row are impossible: the retry succeeds
 =============================================================================
